@@ -434,6 +434,35 @@ pub fn hyphen_configs() -> Vec<Conv> {
         c.subs.push(s);
         c
     });
+    // misspelt long flags next to three subcommands with long flags of their own: the error may
+    // point at a subcommand's flag, which must then be a flag of *that* subcommand
+    push("suggest:flags-of-sibling-subcommands", {
+        let mut c = CmdSpec::new("prog");
+        c.args.push(ArgSpec::flag("a", Some('a'), Some("alpha")));
+        let mut b = CmdSpec::new("build");
+        b.args.push(ArgSpec::flag("release", None, Some("release")));
+        let mut cl = CmdSpec::new("clean");
+        cl.args.push(ArgSpec::flag("dry", None, Some("dry-run")));
+        let mut be = CmdSpec::new("bench");
+        be.args.push(ArgSpec::opt("jobs", None, Some("jobs")));
+        c.subs = vec![b, cl, be];
+        c
+    });
+    // `<host> <cmd>... ; [log]`: a terminated multi-value positional in second-to-last place
+    push("posorder:terminated-multiple-before-optional", {
+        let mut c = CmdSpec::new("prog");
+        c.args.push(ArgSpec::flag("a", Some('a'), Some("alpha")));
+        let mut host = ArgSpec::pos("host", 1);
+        host.required = true;
+        c.args.push(host);
+        let mut cmd = ArgSpec::pos("cmd", 2);
+        cmd.num_args = Some((1, None));
+        cmd.terminator = Some(";".into());
+        cmd.required = true;
+        c.args.push(cmd);
+        c.args.push(ArgSpec::pos("log", 3));
+        c
+    });
     push("posorder:allow_missing_positional+sub", {
         let mut c = CmdSpec::new("prog");
         c.set(Setting::AllowMissingPositional);
@@ -457,6 +486,13 @@ pub fn nested_alphabet() -> Vec<Vec<u8>> {
 
 pub fn values_alphabet() -> Vec<Vec<u8>> {
     ["--opt=fast", "--opt=FAST", "--opt=quick", "--opt=QUICK", "--opt=Quick", "--opt=slow", "--opt=bogus", "--opt=", "-o", "QUICK", "quick", "-oQuick", "--mode=quick", "--mode=QUICK", "--mode=fast", "-m", "-a", "--mode=slow", "--opt=LAZY"]
+        .iter()
+        .map(|s| s.as_bytes().to_vec())
+        .collect()
+}
+
+pub fn suggest_alphabet() -> Vec<Vec<u8>> {
+    ["--relese", "--dry-ru", "--job", "--alpa", "build", "clean", "bench", "-a", "--release", "--dry-run", "--jobs=2"]
         .iter()
         .map(|s| s.as_bytes().to_vec())
         .collect()
